@@ -1,12 +1,16 @@
 """C17 check configuration (see lib/runner.py for the meaning of the keys).
 
 Order of one run:
-  1. regenerate coq/Gen/Effects.v (+ EffectsOk.v) from VERIF_REPO with harness/tools/effects (go/ssa).  The result
+  1. regenerate coq/Gen/Effects.v (+ EffectsOk.v) and coq/Gen/Variants.v (how every WithConfig builds the instance it
+     returns, harness/tools/effects/variants.go) from VERIF_REPO with harness/tools/effects (go/ssa).  The result
      is cached under out/C17/effects_cache/<sha256> where the hash covers every file the analysis reads: every
      non-test .go file of the repository, go.mod, go.sum, the translator's own sources and `go version` (dependencies
      are pinned by go.mod/go.sum and immutable in the module cache).
   2. if the regenerated table lists a receiver-write effect, `Example effects_read_only` (Gen/EffectsOk.v) no longer
-     compiles: the check names the offending stores (type, method, instruction position), then runs both streams
+     compiles; if a row of the variant table fails `variant_row_ok` (a field of the returned instance aliases receiver
+     memory that is written, is written in place, forgotten, taken from another field, or inherited although a method
+     writes it), `Example variants_ok` (Gen/Variants.v) no longer compiles: the check names the offending stores
+     (type, method, instruction position) / FIELDS (type, field, why), then runs both streams
      restricted to the affected mechanism types with an escalated budget (deep-hash histories and a -race stress run)
      to turn the broken obligation into a concrete failing input; VIOLATION either way.
   3. otherwise the generic runner: proofs, the "variants" stream, the "race" stream.
@@ -102,7 +106,32 @@ def selftest():
     bad = ["%s: expected %s, extracted %s" % (k, sorted(v), got.get(k)) for k, v in sorted(exp.items()) if got.get(k) != sorted(v)]
     if bad:
         return False, "translator self-test FAILED (the effect extraction misses or invents writes): " + "; ".join(bad)
-    msg = "translator self-test: %d seeded methods of the fixture module extracted as expected" % len(exp)
+    # second half: the variant table of the fixture (clean construction, aliasing through slices.Clip, a map shared and then
+    # mutated, a map shared and filled lazily by Execute, struct copy with an embedded pointer, a memo copied by value, a
+    # forgotten field, a field taken from another field, a sub-slice / an element pointer)
+    vexp = json.load(open(os.path.join(TOOL, "selftest", "expected_variants.json")))
+    vgot = {}
+    for r in json.load(open(outp)).get("variants") or []:
+        vgot[r["type"]] = {"ok": r["ok"], "self": r["self"],
+                           "fields": {f["name"]: {"srcs": [sr["kind"] + ("" if sr["kind"] in ("Fresh", "Zero") else " %d" % sr["p"]) for sr in f["srcs"]],
+                                                  "writers": f["writers"]} for f in r["fields"]},
+                           "recv_writes": sorted({w["kind"] + " " + w["field"] for w in r["recv_writes"]})}
+    vbad = []
+    for t, e in sorted(vexp.items()):
+        g = vgot.get(t)
+        if g is None:
+            vbad.append("%s: no row" % t)
+            continue
+        for k in ("ok", "self", "recv_writes"):
+            if g[k] != e[k]:
+                vbad.append("%s.%s: expected %s, extracted %s" % (t, k, e[k], g[k]))
+        for fn, fe in e["fields"].items():
+            if g["fields"].get(fn) != fe:
+                vbad.append("%s field %s: expected %s, extracted %s" % (t, fn, fe, g["fields"].get(fn)))
+    if vbad:
+        return False, "translator self-test FAILED (variant table of the fixture): " + "; ".join(vbad)
+    msg = "translator self-test: %d seeded methods of the fixture module extracted as expected; variant table of %d fixture types " \
+          "(%d fields) as expected" % (len(exp), len(vexp), sum(len(e["fields"]) for e in vexp.values()))
     with open(marker, "w") as f:
         f.write(msg)
     return True, msg
@@ -151,17 +180,22 @@ def _table_def(path):
     return open(path).read().split("(* callees without analysed body")[0]
 
 
+def _same_file(a, b):
+    return os.path.exists(a) and os.path.exists(b) and open(a).read() == open(b).read()
+
+
 def same_as_shared(d):
     return _table_def(os.path.join(d, "Effects.v")) == _table_def(os.path.join(vf.COQ, "Gen", "Effects.v")) and \
-        os.path.exists(os.path.join(vf.COQ, "Gen", "EffectsOk.v")) and \
-        open(os.path.join(d, "EffectsOk.v")).read() == open(os.path.join(vf.COQ, "Gen", "EffectsOk.v")).read()
+        _same_file(os.path.join(d, "EffectsOk.v"), os.path.join(vf.COQ, "Gen", "EffectsOk.v")) and \
+        _same_file(os.path.join(d, "Variants.v"), os.path.join(vf.COQ, "Gen", "Variants.v"))
 
 
 def install_shared(d):
     with _SharedLock():
         ch1 = _install(os.path.join(d, "Effects.v"), os.path.join(vf.COQ, "Gen", "Effects.v"))
         ch2 = _install(os.path.join(d, "EffectsOk.v"), os.path.join(vf.COQ, "Gen", "EffectsOk.v"))
-    return ch1 or ch2
+        ch3 = _install(os.path.join(d, "Variants.v"), os.path.join(vf.COQ, "Gen", "Variants.v"))
+    return ch1 or ch2 or ch3
 
 
 def _tool_flags():
@@ -188,7 +222,7 @@ def regenerate():
     key, nfiles = _source_hash()
     key += "-full" if _tool_flags() else ""
     d = os.path.join(CACHE, key)
-    hit = all(os.path.exists(os.path.join(d, n)) for n in ("Effects.v", "EffectsOk.v", "effects.json"))
+    hit = all(os.path.exists(os.path.join(d, n)) for n in ("Effects.v", "EffectsOk.v", "Variants.v", "effects.json"))
     if not hit:
         binp, o = _tool_binary()
         if binp is None:
@@ -210,7 +244,10 @@ def regenerate():
         olds = sorted((os.path.getmtime(os.path.join(CACHE, x)), x) for x in os.listdir(CACHE))
         for _, x in olds[:-8]:
             shutil.rmtree(os.path.join(CACHE, x), ignore_errors=True)
-    rows = json.load(open(os.path.join(d, "effects.json")))["rows"]
+    js = json.load(open(os.path.join(d, "effects.json")))
+    rows = js["rows"]
+    vrows = js.get("variants") or []
+    _state["vrows"] = vrows
     neff = sum(len(m.get("effects") or []) for r in rows for m in r["methods"])
     _state["dir"] = d
     _state["private"] = False
@@ -222,10 +259,12 @@ def regenerate():
         _state["private"] = True
         where = "table differs from the installed one: compiled privately (HVP.Effects), coq/Gen left untouched"
     else:
-        where = "coq/Gen/Effects.v " + ("replaced" if install_shared(d) else "unchanged")
-    msg = "effect table regenerated from %s (%d source files, hash %s, %s): %d mechanism types, %d methods, %d write effects; %s" % (
+        where = "coq/Gen/Effects.v, Variants.v " + ("replaced" if install_shared(d) else "unchanged")
+    msg = "effect table regenerated from %s (%d source files, hash %s, %s): %d mechanism types, %d methods, %d write effects; " \
+          "variant table: %d types, %d construct an instance in WithConfig, %d fields, %d rows failing variant_row_ok; %s" % (
         vf.REPO, nfiles, key[:12], "cache hit" if hit else "translator run", len(rows),
-        sum(len(r["methods"]) for r in rows), neff, where)
+        sum(len(r["methods"]) for r in rows), neff, len(vrows), sum(1 for r in vrows if r["results"] > 0),
+        sum(len(r["fields"]) for r in vrows), sum(1 for r in vrows if not r["ok"]), where)
     res = (True, msg, rows)
     _state["regen"] = res
     return res
@@ -247,16 +286,21 @@ def private_build(d):
         "From HV Require Export Base.Prelude C17.Model Gen.Effects.",
         "From HV Require Export Base.Prelude C17.Model.\nFrom HVP Require Export Effects.")
     open(os.path.join(pdir, "Eval.v"), "w").write(ev)
-    okm, o = vf.coq_make(["C17/Model.vo"])
+    vv = open(os.path.join(d, "Variants.v")).read().replace(
+        "From HV Require Import Base.Prelude C17.Model C17.VModel Gen.Effects.",
+        "From HV Require Import Base.Prelude C17.Model C17.VModel.\nFrom HVP Require Import Effects.")
+    open(os.path.join(pdir, "Variants.v"), "w").write(vv)
+    okm, o = vf.coq_make(["C17/Model.vo", "C17/VModel.vo"])
     log = "" if okm else o[-1500:]
     res = {}
-    for n in ("Effects", "EffectsOk", "Eval"):
+    for n in ("Effects", "EffectsOk", "Variants", "Eval"):
         rc, o = vf.sh(["coqc", "-Q", vf.COQ, "HV", "-Q", pdir, "HVP", "-w", "-notation-overridden", n + ".v"], cwd=pdir, timeout=900)
         res[n] = rc == 0
         if rc != 0:
             log += "\n%s.v: %s" % (n, o[-1200:])
     os.environ["COQPATH"] = root + (":" + os.environ["COQPATH"] if os.environ.get("COQPATH") else "")
-    return res["Effects"] and res["EffectsOk"], res["Effects"] and res["Eval"], log
+    _state["private_examples"] = {"effects_read_only": res["Effects"] and res["EffectsOk"], "variants_ok": res["Effects"] and res["Variants"]}
+    return res["Effects"] and res["EffectsOk"] and res["Variants"], res["Effects"] and res["Eval"], log
 
 
 def spec_types():
@@ -292,6 +336,13 @@ def offending(rows):
     return out
 
 
+def offending_variants(vrows):
+    """rows of the regenerated variant table that fail variant_row_ok: [(pkg, type, reasons naming the fields)]"""
+    return [{"pkg": r["pkg"], "type": r["type"], "why": r["bad"],
+             "fields": [f for f in r["fields"] if any(f["name"] in b for b in r["bad"])],
+             "recv_writes": r["recv_writes"]} for r in vrows or [] if not r["ok"]]
+
+
 def _prefetch(P, tier, seed):
     """the Go side of the streams does not depend on the effect table: build and run both drivers in the
     background while the translator runs and the proofs build.  Returns (results, threads)."""
@@ -321,22 +372,24 @@ def custom(P, tier, seed, replay):
         pre, threads = _prefetch(P, tier, seed)
     ok, msg, rows = regenerate()
     bad = offending(rows) if ok else []
+    vbad = offending_variants(_state.get("vrows")) if ok else []
     priv_note = None
-    if ok and not bad and _state.get("private"):
+    if ok and not bad and not vbad and _state.get("private"):
         okc, oke, plog = private_build(_state["dir"])
         if not (okc and oke):
             rep = vf.Report(PID, tier, seed)
             rep.notes += [msg, plog]
-            rep.obligation("example:HVP.EffectsOk (private build of the regenerated table)", False)
-            rep.violation({"kind": "proof-obligation-broken", "example": "effects_read_only / table_covers_mechanisms / evaluator against the table regenerated from " + vf.REPO,
+            rep.obligation("example:HVP.EffectsOk / HVP.Variants (private build of the regenerated tables)", False)
+            rep.violation({"kind": "proof-obligation-broken", "example": "effects_read_only / table_covers_mechanisms / variants_ok / variants_aligned / evaluator against the tables regenerated from " + vf.REPO,
                            "log": plog, "theorems": P["theorems"]}, no_input=True)
             for th in threads:
                 th.join()
             return rep.finish({"evaluations": 0, "distinct_nontrivial": 0, "rule": P["rule"], "exhaustive": False},
-                              vf.TRUSTED_COMMON + P["trusted"], "coqc (private) HVP.Effects HVP.EffectsOk HVP.Eval", P["assumptions"])
-        priv_note = "private table: HVP.EffectsOk.effects_read_only and table_covers_mechanisms compiled; streams evaluated with HVP.Eval; " \
-                    "the property theorems are the shared ones, which hold for every table passing forallb row_ok (C17_for_every_table)"
-    if ok and not bad:
+                              vf.TRUSTED_COMMON + P["trusted"], "coqc (private) HVP.Effects HVP.EffectsOk HVP.Variants HVP.Eval", P["assumptions"])
+        priv_note = "private tables: HVP.EffectsOk.effects_read_only, table_covers_mechanisms, HVP.Variants.variants_ok / variants_aligned / variants_cover " \
+                    "compiled; streams evaluated with HVP.Eval; the property theorems are the shared ones, which hold for every pair of tables passing " \
+                    "forallb row_ok / forallb variant_row_ok (C17_for_every_table, C17_locality_from_variant_table)"
+    if ok and not bad and not vbad:
         orig = runner.run_stream
         orig_eval = runner.evaluate
         orig_gens = P["generators"]
@@ -380,21 +433,24 @@ def custom(P, tier, seed, replay):
         return rep.finish({"evaluations": 0, "distinct_nontrivial": 0, "rule": P["rule"], "exhaustive": False},
                           vf.TRUSTED_COMMON + P["trusted"], "harness/tools/effects -repo " + vf.REPO, P["assumptions"])
 
-    # ---- the regenerated table lists receiver writes
+    # ---- the regenerated effect table lists receiver writes and / or a row of the variant table fails variant_row_ok
     private = _state.get("private", False)
     if private:
         okc, oke, plog = private_build(_state["dir"])
-        # (if the kernel accepted the table although the JSON lists effects the obligations below would be wrong; the
-        #  Example is the authority, so say so and stop)
+        ex = _state.get("private_examples", {})
+        ok_eff, ok_var = ex.get("effects_read_only", False), ex.get("variants_ok", False)
+        # (if the kernel accepted the tables although the JSON lists offenders the obligations below would be wrong; the
+        #  Examples are the authority, so say so and stop)
         if okc:
             rep = vf.Report(PID, tier, seed)
-            rep.notes.append("inconsistent: effects.json lists writes but HVP.EffectsOk compiles; " + msg)
+            rep.notes.append("inconsistent: effects.json lists writes / rows failing variant_row_ok but HVP.EffectsOk and HVP.Variants compile; " + msg)
             rep.violation({"kind": "translator-inconsistent", "why": rep.notes[-1]}, no_input=True)
             return rep.finish({"evaluations": 0, "distinct_nontrivial": 0, "rule": P["rule"], "exhaustive": False},
                               vf.TRUSTED_COMMON + P["trusted"], "coqc (private)", P["assumptions"])
     else:
-        okc, out = vf.coq_make(["Gen/EffectsOk.vo"])
-        if okc:
+        ok_eff, out = vf.coq_make(["Gen/EffectsOk.vo"])
+        ok_var, outv = vf.coq_make(["Gen/Variants.vo"])
+        if ok_eff and ok_var:
             return runner.run_property(P, tier, seed, replay)
         oke, plog = vf.coq_make(["Run/Eval_C17.vo"])
         plog = plog[-1500:]
@@ -404,18 +460,28 @@ def custom(P, tier, seed, replay):
     rep.notes.append(msgs)
     rep.notes.append(msg)
     rep.obligation("generate:gen_effects_table", True)
-    rep.obligation("example:Gen.EffectsOk.effects_read_only", False)
+    rep.obligation("example:Gen.EffectsOk.effects_read_only", bool(ok_eff))
+    rep.obligation("example:Gen.Variants.variants_ok", bool(ok_var))
     for t in P["theorems"]:
         rep.obligation("theorem:" + t, False)
-    types = sorted({b["type"] for b in bad})
+    types = sorted({b["type"] for b in bad} | {v["type"] for v in vbad})
     meths = sorted({b["type"] + "." + b["method"] for b in bad})
     stores = sorted({(b["kind"], b["in_function"], b["target"], b["position"]) for b in bad})
-    print("C17: `Example effects_read_only` (coq/Gen/EffectsOk.v) does not hold for the table regenerated from %s" % vf.REPO)
+    if bad:
+        print("C17: `Example effects_read_only` (coq/Gen/EffectsOk.v) does not hold for the table regenerated from %s" % vf.REPO)
     for k, fn, tgt, pos in stores[:12]:
         users = sorted({b["type"] + "." + b["method"] for b in bad if b["position"] == pos})
         print("  receiver write: %s %s in %s at %s  (reached from %s)" % (k, tgt, fn, pos, ", ".join(users[:6]) + (" ..." if len(users) > 6 else "")))
-    rep.notes.append("effects_read_only fails: %d receiver-write effects in %d methods of %s" % (len(bad), len(meths), ", ".join(types)))
-    cmds = ["harness/tools/effects -repo %s" % vf.REPO, "coqc EffectsOk.v (fails)" + (" [private build, prefix HVP]" if private else "")]
+    if bad:
+        rep.notes.append("effects_read_only fails: %d receiver-write effects in %d methods of %s" % (len(bad), len(meths), ", ".join(sorted({b["type"] for b in bad}))))
+    if vbad:
+        print("C17: `Example variants_ok` (coq/Gen/Variants.v) does not hold for the variant table regenerated from %s" % vf.REPO)
+        for v in vbad[:8]:
+            for w in v["why"][:6]:
+                print("  %s.%s WithConfig: %s" % (v["pkg"], v["type"], w[:420]))
+        rep.notes.append("variants_ok fails: %s" % "; ".join("%s (%s)" % (v["type"], ", ".join(sorted({f["name"] for f in v["fields"]})) or "receiver written") for v in vbad))
+    cmds = ["harness/tools/effects -repo %s" % vf.REPO, "coqc EffectsOk.v (%s) Variants.v (%s)" % ("ok" if ok_eff else "fails", "ok" if ok_var else "fails") +
+            (" [private build, prefix HVP]" if private else "")]
     all_obs = []
     if not oke:
         rep.notes.append("the evaluator (Run/Eval_C17) does not build against the regenerated table: " + plog)
@@ -446,6 +512,7 @@ def custom(P, tier, seed, replay):
                 c = json.load(open(p))
                 c["stream_name"] = st["name"]
                 c["effect_table"] = {"example": "Gen.EffectsOk.effects_read_only", "receiver_writes": bad[:40]}
+                c["variant_table"] = {"example": "Gen.Variants.variants_ok", "rows_failing_variant_row_ok": vbad[:10]}
                 json.dump(c, open(p, "w"), indent=1, default=str)
             rep.obligation("stream:" + st["name"], nviol == 0 and not cfpo)
             rep.notes.append("focused stream %s on %s: %d cases, %d property failures" % (st["name"], ",".join(types), len(obs), nviol))
@@ -453,14 +520,16 @@ def custom(P, tier, seed, replay):
                 ob["stream"] = st["name"] + "/" + (ob.get("stream") or "")
             all_obs += obs
     if not rep.violations:
-        rep.violation({"kind": "proof-obligation-broken", "example": "Gen.EffectsOk.effects_read_only (coq/Gen/EffectsOk.v)",
-                       "receiver_writes": bad[:40], "mechanism_types": types,
+        rep.violation({"kind": "proof-obligation-broken",
+                       "example": " / ".join(([] if ok_eff else ["Gen.EffectsOk.effects_read_only (coq/Gen/EffectsOk.v)"]) +
+                                             ([] if ok_var else ["Gen.Variants.variants_ok (coq/Gen/Variants.v)"])),
+                       "receiver_writes": bad[:40], "rows_failing_variant_row_ok": vbad[:10], "mechanism_types": types,
                        "searched": "deep-hash histories and -race stress run restricted to these types found no failing input",
                        "theorems": P["theorems"]}, no_input=True)
     cov = {"evaluations": len(all_obs), "distinct_nontrivial": vf.distinct_nontrivial(all_obs), "rule": P["rule"],
            "samples": vf.sample(all_obs, 3), "input_distribution": vf.histogram(all_obs), "theorems": {},
            "source_fingerprint": vf.fingerprint(P.get("anchors", [])), "exhaustive": False,
-           "effect_table": {"receiver_writes": bad[:60]}}
+           "effect_table": {"receiver_writes": bad[:60]}, "variant_table": {"rows_failing_variant_row_ok": vbad[:20]}}
     return rep.finish(cov, vf.TRUSTED_COMMON + P["trusted"], " ; ".join(cmds), P["assumptions"])
 
 
@@ -470,17 +539,32 @@ def extra_coverage():
         return {}
     return {"effect_table": {"mechanism_types": len(rows), "methods": sum(len(r["methods"]) for r in rows),
                              "function_contexts_analysed": sum(m.get("reach", 0) for r in rows for m in r["methods"]),
-                             "receiver_writes": offending(rows)[:20], "generated_from": vf.REPO}}
+                             "receiver_writes": offending(rows)[:20], "generated_from": vf.REPO},
+            "variant_table": _variant_summary(_state.get("vrows") or [])}
+
+
+def _variant_summary(vrows):
+    kinds = {}
+    for r in vrows:
+        for f in r["fields"]:
+            for sr in f["srcs"]:
+                kinds[sr["kind"]] = kinds.get(sr["kind"], 0) + 1
+    return {"mechanism_types": len(vrows), "constructing_an_instance": sum(1 for r in vrows if r["results"] > 0),
+            "returning_the_receiver_on_some_path": sum(1 for r in vrows if r["self"]),
+            "fields": sum(len(r["fields"]) for r in vrows), "sources_by_kind": kinds,
+            "fields_with_writers": sum(1 for r in vrows for f in r["fields"] if f["writers"]),
+            "rows_failing_variant_row_ok": offending_variants(vrows)[:10]}
 
 
 P = {
     "id": PID,
     "claimed": True,
-    "coq_targets": ["Gen/EffectsOk.vo", "Properties/C17.vo", "Run/Eval_C17.vo"],
+    "coq_targets": ["Gen/EffectsOk.vo", "Gen/Variants.vo", "Properties/C17.vo", "Run/Eval_C17.vo"],
     "theorems_module": "Properties.C17",
     "theorems": ["C17_store_unchanged", "C17_race_free", "C17_calls_read_only", "C17_overrides_local", "C17_order_independent",
-                 "C17_for_every_table", "C17_sequential_runs_meet_spec", "C17_F1_pinned_refuted", "C17_nonvacuous",
-                 "C17_table_covers_mechanisms"],
+                 "C17_for_every_table", "C17_locality_from_variant_table", "C17_writes_stay_local", "C17_variant_views_agree",
+                 "C17_sequential_runs_meet_spec", "C17_F1_pinned_refuted", "C17_variant_check_refutes_M2",
+                 "C17_variant_check_refutes_seeded_9", "C17_nonvacuous", "C17_table_covers_mechanisms"],
     "generators": [gen_translator_selftest, gen_effects_table],
     "custom": custom,
     "extra_coverage": extra_coverage,
